@@ -1,3 +1,67 @@
-LEVEL = 'other'
-EXPLANATION = 'C03 (under construction)'
-EXTRA = []
+"""C03 - range card has exactly one row at every requested distance, muzzle to range."""
+import time
+
+LEVEL = 'proof'
+EXPLANATION = ('_TrajectoryDataFilter.should_record under contract for EVERY filter state and step (540 paths): a range row lies '
+               'exactly at the record distance (interpolation identity), the record distance is the last multiple not beyond '
+               'the projectile, no multiple is skipped when a step advances by at most the record step (hypothesis H-adv of the '
+               'statement), every field of the row uses one interpolation ratio in [0,1], time rows only when the time step has '
+               'passed; inner skip loop with variant. _integrate: entry clause (first state is the muzzle state: time 0, muzzle '
+               'velocity along the barrel, canted sight-height offset) and no rows yet / first record distance 0; loop exit only '
+               'beyond range + min(calc step, record step); rows are built from the filter\'s data by create_trajectory_row '
+               '(contract: distance/height/time are the state). Calculator.fire: frame; default step. The float drift of the '
+               'accumulated record distance is outside A-REAL: bounded stand-in with long fine-step cards.')
+NOT_DECIDED = ['the global row-count argument (exactly one row per multiple up to the range) is assembled from the per-step '
+               'clauses by induction on the steps under H-fwd / H-adv; the ghost-counter invariant next_record_distance = j x '
+               'step over the whole loop was not built (DESIGN.md Appendix A INV03), so the count itself is only checked by the '
+               'bounded stand-in',
+               'recorded findings of the design round (last row lost with a tail-wind component; extra terminal row when the '
+               'step exceeds the range) are in DESIGN.md section 6 (D15, D16)',
+               'float rounding of the accumulated record distance (A-REAL): bounded']
+EXTRA_ASSUMPTIONS = ['H-fwd / H-adv: the projectile keeps moving forward and advances by at most the record step per '
+                     'integration step (antecedent of the property)']
+EXTRA = ['bounded_row_structure']
+
+
+def bounded_row_structure(tier, seed):
+    import random
+    from pyvc.bounded import pkg, std_shot, mk
+    from pyvc.scan import result
+    P = pkg()
+    rng = random.Random(4000 + seed)
+    t0 = time.time()
+    bad = None
+    cases = 0
+    plan = [(P.Unit.Meter(2500), P.Unit.Meter(0.25)), (P.Unit.Yard(1000), P.Unit.Yard(100)), (P.Unit.Foot(700), P.Unit.Foot(0.7)),
+            (P.Unit.Meter(1000), P.Unit.Meter(300))]
+    if tier != 'quick':
+        plan += [(P.Unit.Yard(3000), P.Unit.Yard(0.2)), (P.Unit.Meter(800), P.Unit.Meter(7))]
+    for rng_q, step_q in plan:
+        shot = std_shot(P, rng, mv=2900, bc=0.5, table=P.TableG7,
+                        winds=[P.Wind(P.Unit.MPH(5), P.Unit.Degree(rng.choice([90, 180, 270])))],
+                        look_deg=0.0)
+        shot.cant_angle = P.Unit.Degree(rng.choice([0, -20, 15]))
+        tr = P.Calculator().fire(shot, rng_q, step_q).trajectory
+        R, S = rng_q.raw_value, step_q.raw_value
+        n_exp = int(R / S + 1e-9) + 1
+        cases += 1
+        if not (n_exp <= len(tr) <= n_exp + 1):
+            bad = f'range {rng_q}, step {step_q}: {len(tr)} rows, expected {n_exp} (or {n_exp + 1})'
+            continue
+        for i, r in enumerate(tr[:n_exp]):
+            if abs(r.distance.raw_value - i * S) > 1e-6 * max(1.0, i * S):
+                bad = f'range {rng_q}, step {step_q}: row {i} at {r.distance.raw_value} in, expected {i * S}'
+                break
+        import math
+        sh = shot.weapon.sight_height >> P.Unit.Foot
+        c = shot.cant_angle >> P.Unit.Radian
+        f = tr[0]
+        if abs(f.time) > 0 or abs((f.height >> P.Unit.Foot) + math.cos(c) * sh) > 1e-9 or \
+                abs((f.windage >> P.Unit.Foot) + math.sin(c) * sh) > 1e-9:
+            bad = f'first row is not the muzzle state: time {f.time}, height {f.height}, windage {f.windage}, cant {c}'
+    tr = P.Calculator().fire(std_shot(P, rng, mv=2700, bc=0.3), P.Unit.Yard(500)).trajectory
+    if len(tr) != 11:
+        bad = f'default step: {len(tr)} rows, expected 11'
+    return result('bounded:row-structure', [mk('one-row-per-multiple-first-row-muzzle-default-step', bad is None,
+                  'row count, row distances, first row and default step on long fine-step cards (float drift of the '
+                  'accumulated record distance is outside A-REAL)', cases, t0, bad)], t0, props=('C03',))
